@@ -397,10 +397,6 @@ def mode_random(out: str) -> None:
                            error_type=(TokenSyntaxError, KeyValError, HarnessError)[k % 3]))
         if k % 4 == 0:
             w.write(steps_record(text, o, None, 'random'))
-        if k % 4 == 1 and len(text) <= 60:
-            m = nasty_cuts(text) | rng.getrandbits(max(len(text) - 1, 1))
-            chunks = with_empties(cut(text, m)) if rng.random() < 0.5 else cut(text, m)
-            w.write(cursor_record_from_run(text, o, chunks, 'random'))
     w.close()
     print(json.dumps({'records': w.n}))
 
@@ -468,7 +464,7 @@ def calls_record(text: str, o: dict, script: list, kind: str) -> dict:
                     'ops': ','.join(sorted({op['op'] for op in script}))}}
 
 
-CALL_TEXTS = ['a "b"\n{ x [f]\r\n}', '"k" "v" [!f]\n', '\n\n a \n', '"unterminated', 'a // c\n b', '{ } , =', '', 'a ]']
+CALL_TEXTS = ['a "b"\n{ x [f]\r\n}', '"k" "v" [!f]\n', '"{" "}" ({x}) "{0}" [{] "a{b"', '\n\n a \n', '"unterminated', 'a // c\n b', '{ } , =', '', 'a ]']
 
 
 def mode_calls(out: str) -> None:
@@ -479,7 +475,7 @@ def mode_calls(out: str) -> None:
              {'op': 'push', 't': 'NEWLINE', 'v': cps('zz')}, {'op': 'expect', 't': 'STRING', 'skip': True},
              {'op': 'expect', 't': 'NEWLINE', 'skip': True}, {'op': 'expect', 't': 'BRACE_OPEN', 'skip': False}]
     n_exh = 0
-    for text in CALL_TEXTS[:8 if thorough else 3]:
+    for text in CALL_TEXTS[:9 if thorough else 3]:
         for n in range(1, 4):
             for tup in itertools.product(basic, repeat=n):
                 w.write(calls_record(text, toklib.KV_OPTS, list(tup) + [{'op': 'call'}], 'calls-exh'))
@@ -548,7 +544,7 @@ def rand_popts(rng: random.Random) -> dict:
     return {n: (rng.random() < 0.5) for n in POPT_NAMES}
 
 
-KV_TOKENS = ['a', '"b c"', 'x', '[on]', '[!on]', '[off]', '{', '}', '\n', '\r\n', '//c\n', '"v\\n"', '"', '[', '/', "'", '#d', '(p)']
+KV_TOKENS = ['"{"', '"{x}"', '"}"', 'a', '"b c"', 'x', '[on]', '[!on]', '[off]', '{', '}', '\n', '\r\n', '//c\n', '"v\\n"', '"', '[', '/', "'", '#d', '(p)']
 KV_CORE = ['a', '"b"', '[on]', '[!on]', '{', '}', '\n']
 
 
@@ -607,6 +603,9 @@ def mode_kvsoup(out: str) -> None:
             if n <= 3 or thorough:
                 w.write(kv_record(soup(tup), flags, rng, 'kvsoup', {'single_block': True, 'single_line': n % 2 == 0}))
                 n_exh += 1
+    # a value token right where the parser expects the end of the line (the expect() helper)
+    for text in ['a b [on] "{"\n', 'a [on] "{x}"\n{\n}\n', 'a b [on] "}"', 'a b [on] "{0}"\n', 'a [!on] "{"\n{\n}\n']:
+        w.write(kv_record(text, flags, rng, 'kvfixed'))
     for _ in range(20_000 if thorough else 1_200):
         toks = [rng.choice(KV_CORE if rng.random() < 0.7 else KV_TOKENS) for _ in range(rng.randrange(5, 14))]
         w.write(kv_record(soup(toks, rng), flags, rng, 'kvsoup', rand_popts(rng)))
